@@ -430,9 +430,9 @@ func genC01(r *world.Rng, w *world.World, big bool, certAlways bool) {
 	if big && r.Bool(0.3) {
 		maxN = 16
 	}
-	validated := r.Bool(0.12)
+	validated := r.Bool(0.2)
 	if validated {
-		maxN = r.Range(20, 45)
+		maxN = r.Range(18, 45)
 	}
 	n, cl := cnfInstance(r, maxN, !validated || r.Bool(0.3))
 	t := world.TaskSpec{Kind: "cnf", N: n, Clauses: cl}
@@ -453,13 +453,22 @@ func genC01(r *world.Rng, w *world.World, big bool, certAlways bool) {
 		// N is inferred: trailing unused variables cannot be expressed on this route
 		t.N = 0
 	}
-	if certAlways || r.Bool(0.35) {
+	if certAlways || r.Bool(0.35) || (validated && r.Bool(0.5)) {
 		t.Cert = true
 		t.Cap = capacity(r)
 		t.Delays = delays(r)
 	}
 	w.Tasks = []world.TaskSpec{t}
 	knobs(r, w)
+	if validated && r.Bool(0.6) {
+		// many conflicts and a tiny learned-clause limit: reductions happen again and again while clauses are locked
+		if w.Knobs == nil {
+			w.Knobs = map[string]int{}
+		}
+		w.Knobs["initNbMaxClauses"] = r.Pick(1, 2, 3, 5, 10)
+		w.Knobs["incrNbMaxClauses"] = r.Pick(0, 1, 3)
+		w.Knobs["incrPostponeNbMax"] = r.Pick(0, 1, 10)
+	}
 	schedSingle(r, w)
 }
 
